@@ -59,6 +59,7 @@ func TestVerifC12Paths(t *testing.T) {
 	root := "/R/oot"
 	proj := &Project{root: root, work: "/W"}
 	seenPath := map[string]string{}
+	printed := map[string]label.Label{}
 
 	pkgs := []string{"//", "//a", "//a/b", "//a/../b", "//.."}
 	c12enum("a./", maxLen, func(sp string) {
@@ -88,6 +89,19 @@ func TestVerifC12Paths(t *testing.T) {
 					return
 				}
 				line("slabel", c12hx(pkg), c12hx(sp), "ok", c12hx(l.Kind), c12hx(l.Project), c12hx(l.Package), c12hx(l.Name))
+				// the property's label clauses on the labels dawn manufactures itself: print-then-reparse identity and
+				// canonical printing (same eligibility as for parsed labels: a name, or no kind)
+				if l.Name != "" || l.Kind == "" {
+					str := l.String()
+					l2, perr := label.Parse(str)
+					if perr != nil || *l2 != *l {
+						line("ORACLE", "source_label_roundtrip", c12hx(pkg), c12hx(sp), c12hx(str))
+					}
+					if prev, ok := printed[str]; ok && prev != *l {
+						line("ORACLE", "source_label_print_not_canonical", c12hx(pkg), c12hx(sp), c12hx(str))
+					}
+					printed[str] = *l
+				}
 				tp := proj.targetInfoPath(l)
 				line("tip", c12hx(l.Kind), c12hx(l.Package), c12hx(l.Name), c12hx(tp[len("/W/"):]))
 				if prev, ok := seenPath[tp]; ok && prev != l.String() {
